@@ -83,6 +83,29 @@ def run(seed=0, rounds=400):
         cat = numpy.concatenate(parts)
         offs = numpy.cumsum([0] + [len(p_) for p_ in parts])
         check('concatenate', len(cat) == offs[-1] and all(cat[offs[j] + i] == parts[j][i] for j in range(len(parts)) for i in range(len(parts[j]))), cat)
+        # pyvc/chunks.py (assemble_block_csr): a list of arrays grown by append is modelled by (number of chunks, concatenation);
+        # append = concatenation extended, truthiness = number of chunks, concatenate([]) raises ValueError; list.extend(array);
+        # numpy.array(list of ints); unpacking a length-2 slice; a[i:j] for 0 <= i <= j <= len needs no clamping
+        grown, model = [], numpy.zeros(0, dtype=int)
+        for p_ in parts:
+            grown.append(p_)
+            model = numpy.concatenate([model, p_])
+            check('list-of-arrays-by-concatenation', bool(grown) and (numpy.concatenate(grown) == model).all() and len(numpy.concatenate(grown)) == len(model), grown)
+        try:
+            numpy.concatenate([])
+            check('concatenate-empty-list-raises', False)
+        except ValueError:
+            pass
+        lst = [0]
+        lst.extend(parts[0] + 3)
+        lst.append(int(7))
+        check('list-extend-array', numpy.array(lst).tolist() == [0] + [int(v_) + 3 for v_ in parts[0]] + [7] and numpy.array(lst).dtype.kind == 'i', lst)
+        big = rng.randint(0, 9, size=rng.randint(2, 6))
+        i_ = int(rng.randint(0, len(big) - 1))
+        a_, b_ = big[i_:i_ + 2]
+        check('unpack-length-2-slice', (a_, b_) == (big[i_], big[i_ + 1]))
+        j_ = int(rng.randint(i_, len(big) + 1))
+        check('slice-without-clamping', big[i_:j_].tolist() == [big[k_] for k_ in range(i_, j_)] and len(big[i_:j_]) == j_ - i_)
         fl = float(rng.choice([numpy.nan, numpy.inf, -numpy.inf, 0., 1., -2.5]))
         g = float(rng.choice([numpy.nan, numpy.inf, 0., 3.]))
         check('ieee-comparisons', (not (fl > g) if numpy.isnan(fl) or numpy.isnan(g) else True) and ((max(fl, g) == g) == (g > fl) or numpy.isnan(max(fl, g)) or fl == g), fl, g)
